@@ -702,7 +702,9 @@ class Unary(Expression):
 
     @contextmanager
     def calculate(self, dst, long, force=False):
-        with self.arg.calculate(dst, long, force) as (dst, long):
+        with self.arg.calculate(dst, long, force) as (dst, arg_long):
+            if long is None:
+                long = arg_long
             self.calculate_unary(dst, long)
             yield dst, long
 
